@@ -332,7 +332,7 @@ def run(prog):
                 cf = [g for g in prog.lib_fns if g.npath == clo[2]]
                 rr = strip(cf[0].terms.ret) if cf else None
                 if not (rr and mir.is_call(rr, "new") and len(rr[2]) == 2 and strip(rr[2][1])[0] == "const"):
-                    errs.append("literal constructor of %s not recognised" % clo[2].split("::")[-1])
+                    errs.append("?literal constructor of %s not recognised" % clo[2].split("::")[-1])
                     continue
                 pol = int(strip(rr[2][1])[2])
                 n += 1
@@ -342,7 +342,7 @@ def run(prog):
                     errs.append("variables from the %s set become literals of polarity %s"
                                 % ("true" if list(sets)[0] == 0 else "false", bool(pol)))
         if n < 2 and not errs:
-            errs.append("expected one literal stream per set, found %d" % n)
+            errs.append("%sexpected one literal stream per set, found %d" % ("?" if n == 0 else "", n))
         out.append(inst("PM", "%s:two-sets" % fn.npath, VIOLATION if errs else OK, fn, None,
                         errs[0] if errs else "true set ↦ positive literals, false set ↦ negative literals"))
     return out
